@@ -1666,6 +1666,11 @@ impl<'r> Gen<'r> {
         if self.o.extended && self.rng.chance(1, 6) {
             let m = self.nested_section();
             self.p.blocks[body_bi].items.push(m);
+            // a `class ...` member directly after the section ends it
+            if self.rng.chance(1, 2) {
+                let m = self.class_prefixed_member(w == "class");
+                self.p.blocks[body_bi].items.push(m);
+            }
         }
         let nsec = self.rng.below(4);
         for _ in 0..nsec {
@@ -1692,6 +1697,10 @@ impl<'r> Gen<'r> {
             if self.o.extended && self.rng.chance(1, 8) {
                 let m = self.nested_section();
                 self.p.blocks[bi].items.push(m);
+                if self.rng.chance(1, 2) {
+                    let m = self.class_prefixed_member(w == "class");
+                    self.p.blocks[bi].items.push(m);
+                }
             }
             self.depth -= 1;
         }
@@ -1699,6 +1708,47 @@ impl<'r> Gen<'r> {
         let e = self.kw("end");
         self.mark_line_start(e);
         self.p.blocks[body_bi].closer = Some(e);
+    }
+
+    /// `class function Foo: Integer; static;` / `class procedure Bar;` / `class property P: T read F;`
+    fn class_prefixed_member(&mut self, is_class: bool) -> usize {
+        self.feat("class-prefixed-member-after-section");
+        self.budget -= 1;
+        let first = self.kw("class");
+        match self.rng.below(3) {
+            0 => {
+                self.kw("function");
+                self.new_name("Get");
+                self.op(":");
+                self.type_ident(false);
+                self.semi();
+                if !is_class || self.rng.bool() {
+                    self.kw("static");
+                    self.semi();
+                }
+            }
+            1 => {
+                self.kw("procedure");
+                self.new_name("Do");
+                self.param_list();
+                self.semi();
+                if !is_class {
+                    self.kw("static");
+                    self.semi();
+                }
+            }
+            _ => {
+                self.kw("property");
+                self.new_name("Prop");
+                self.op(":");
+                self.type_ident(false);
+                self.kw("read");
+                self.new_name("F");
+                self.semi();
+            }
+        }
+        self.mark_line_start(first);
+        first
     }
 
     /// `class operator Add(A, B: TFoo): TFoo;` inside a record
